@@ -70,6 +70,24 @@ func c16(c *Ctx) {
 						return true
 					}
 				}
+				// a slice-backed collection: <coll>[.f] = append(<coll>[.f], placeholder)
+				if len(as.Lhs) == 1 && len(as.Rhs) == 1 {
+					through := false
+					for cur := unparen(as.Lhs[0]); ; {
+						if isField(info, cur, fColl) {
+							through = true
+							break
+						}
+						se, isSel := cur.(*ast.SelectorExpr)
+						if !isSel {
+							break
+						}
+						cur = unparen(se.X)
+					}
+					if call, isC := unparen(as.Rhs[0]).(*ast.CallExpr); through && isC && builtinName(info, call) == "append" && len(call.Args) >= 2 && exprStr(call.Args[0]) == exprStr(as.Lhs[0]) {
+						return true
+					}
+				}
 			}
 			if call, ok := n.(*ast.CallExpr); ok {
 				if recv, m := methodCall(info, call); m != nil && m.Name() == "PushBack" && isField(info, recv, fColl) {
